@@ -98,6 +98,10 @@ def expectE (S : Schema) (i : Nat) (f : Field) : String :=
   | .lengthOf t tg => s!"slot(w={t.width},le={le}) … patch after {tg}"
   | .checksum t a => s!"checksum({a},w={t.width},le={le},member#{i})"
 
+def unsupportedTarget (pk target : String) : Reason :=
+  { side := "enc", packet := pk, field := target, kind := "length", attr := "unsupported-target-kind",
+    expected := "mark, target, mark, patch around any kind of target", got := "a target that is not one packet-typed / match member" }
+
 def walkE (S : Schema) (pk : String) (all : List Field) : Option Pending → Nat → List Field → List EStep → List Reason
   | none, _, [], [] => []
   | some p, _, [], _ =>
@@ -114,7 +118,14 @@ def walkE (S : Schema) (pk : String) (all : List Field) : Option Pending → Nat
       -- no slot where the length field stands: report and resynchronise field by field
       let where_ := match fs with | f2 :: _ => if f2.name = target then kindName f2 else "far" | [] => "none"
       mk ("length-plan/" ++ where_) (estepStr st) :: walkE S pk all none (i + 1) fs rest
-    | .target p, .mark sv :: st2 :: .mark ev :: .patch w2 le2 pv' sv' ev' slice :: rest =>
+    | .target p, .mark _ :: _ :: .mark _ :: .patch _ _ _ _ _ _ :: rest =>
+      if f.rep || !isCallKind f.kind then
+        -- the five generators compute a length only around ONE packet-typed / match member; whatever they
+        -- print for another kind of target is a consequence of that, attributed to the cause
+        unsupportedTarget pk p.target :: walkE S pk all none (i + 1) fs rest
+      else
+      match steps with
+      | .mark sv :: st2 :: .mark ev :: .patch w2 le2 pv' sv' ev' slice :: rest =>
       let ok := w2 = p.w && leOk S w2 le2 && pv' = p.pv && sv' = sv && ev' = ev && sv != ev && p.pv != sv && p.pv != ev
         && fieldIdx all p.target = some i && !f.rep && isCallKind f.kind && sliceOk p.w slice
       let attr := if w2 ≠ p.w then "patch.width" else if !leOk S w2 le2 then "patch.le"
@@ -125,7 +136,11 @@ def walkE (S : Schema) (pk : String) (all : List Field) : Option Pending → Nat
            got := estepStr (.patch w2 le2 pv' sv' ev' slice) }])
         ++ (if plainOkE S i f st2 then [] else [mk (eAttr S i f st2) (estepStr st2)])
         ++ walkE S pk all none (i + 1) fs rest
+      | _ => []
     | .target p, st :: rest =>
+      if f.rep || !isCallKind f.kind then
+        unsupportedTarget pk p.target :: walkE S pk all none (i + 1) fs rest
+      else
       -- the target is not wrapped in mark/patch: the length is never written
       { side := "enc", packet := pk, field := p.target, kind := "length", attr := "length-plan/" ++ kindName f,
         expected := "mark, target, mark, patch", got := estepStr st }
